@@ -49,7 +49,7 @@ import (
 // the connection's compression window after the call.  The driver prints fid=1 iff the model
 // reproduces the observed bytes of every call exactly, given the mask keys and compressor output seen.
 func init() {
-	register(&Suite{Name: "write", Gen: genWrite, Exec: execWrite})
+	register(&Suite{Name: "write", Gen: genWrite, Exec: execWrite, Isolated: true})
 }
 
 // ---- payload expressions ----------------------------------------------------------------------
@@ -124,18 +124,23 @@ type wCfg struct {
 	thr    int
 	utf8   bool
 	wmax   int
+	level  int
 }
 
 func parseWCfg(a []string) (wCfg, error) {
 	c := wCfg{server: a[0] == "s", utf8: a[2] == "1"}
 	if a[1] != "off" {
 		f := strings.Split(a[1], ":")
-		if len(f) != 4 || f[0] != "on" {
+		if (len(f) != 4 && len(f) != 5) || f[0] != "on" {
 			return c, fmt.Errorf("bad pd %q", a[1])
 		}
 		c.pd, c.tk = true, f[1] == "1"
 		c.bits, _ = strconv.Atoi(f[2])
 		c.thr, _ = strconv.Atoi(f[3])
+		c.level = 1
+		if len(f) == 5 { // optional compression level (flate.DefaultCompression = -1, HuffmanOnly = -2, 1..9)
+			c.level, _ = strconv.Atoi(f[4])
+		}
 	}
 	c.wmax, _ = strconv.Atoi(a[3])
 	return c, nil
@@ -172,7 +177,7 @@ func wConns(c wCfg, optThr int, needB bool) (a *gws.Conn, at *memConn, b *gws.Co
 		ext := ""
 		if c.pd {
 			opt.PermessageDeflate = gws.PermessageDeflate{Enabled: true, ServerContextTakeover: c.tk, ClientContextTakeover: true,
-				ServerMaxWindowBits: c.bits, ClientMaxWindowBits: 15, Threshold: optThr, PoolSize: 1}
+				ServerMaxWindowBits: c.bits, ClientMaxWindowBits: 15, Threshold: optThr, PoolSize: 1, Level: c.level}
 			ext = "permessage-deflate; client_max_window_bits"
 		}
 		up := gws.NewUpgrader(h, opt)
@@ -191,7 +196,7 @@ func wConns(c wCfg, optThr int, needB bool) (a *gws.Conn, at *memConn, b *gws.Co
 	opt := &gws.ClientOption{WriteMaxPayloadSize: c.wmax, CheckUtf8Enabled: c.utf8}
 	ext := ""
 	if c.pd {
-		opt.PermessageDeflate = gws.PermessageDeflate{Enabled: true, ServerContextTakeover: true, ClientContextTakeover: true, Threshold: optThr}
+		opt.PermessageDeflate = gws.PermessageDeflate{Enabled: true, ServerContextTakeover: true, ClientContextTakeover: true, Threshold: optThr, Level: c.level}
 		ext = "permessage-deflate; server_no_context_takeover"
 		if !c.tk {
 			ext += "; client_no_context_takeover"
@@ -290,10 +295,13 @@ func (w *wRecWriter) Write(p []byte) (int, error) {
 
 // wReplicaCuts runs a compressor configured like the connection's (writefile.go newBigDeflater, level 1)
 // on the same dictionary and chunks and reports the sizes of its Write calls.
-func wReplicaCuts(bits int, dict []byte, chunks [][]byte, flush bool) ([]byte, []int) {
+func wReplicaCuts(bits int, level int, dict []byte, chunks [][]byte, flush bool) ([]byte, []int) {
 	var fw *flate.Writer
+	if level == 0 {
+		level = 1
+	}
 	if bits == 15 {
-		fw, _ = flate.NewWriter(nil, 1)
+		fw, _ = flate.NewWriter(nil, level)
 	} else {
 		fw, _ = flate.NewWriterWindow(nil, 1<<bits)
 	}
@@ -442,7 +450,7 @@ func execWrite(args []string) string {
 			}
 			rerr = conn.WriteFile(opOf(1), &wScriptReader{reads: reads, mode: f[3]})
 			if c.pd {
-				stream, sizes := wReplicaCuts(c.bits, dict, reads, f[3] != "err")
+				stream, sizes := wReplicaCuts(c.bits, c.level, dict, reads, f[3] != "err")
 				extra = "/" + wCutString(stream, sizes, tap.Tap()[seen:])
 			}
 		default:
@@ -591,6 +599,23 @@ func genWrite(g *Gen) {
 		w.emit(role, "on:1:12:0", 1, big, []string{"pong:@r120.5", "async:2:@r200.9+@r120.5"})
 	}
 	w.emit("s", "on:1:12:0", 1, big, []string{"bc2:2:512:@r300.3", "msg:2:@r200.9+@r300.3"})
+	// back-references at chosen distances around and beyond the negotiated window, at several compression levels:
+	// one message X ++ filler(D) ++ X, and the same across two messages under takeover
+	for _, role := range []string{"s", "c"} {
+		for _, bits := range []int{8, 9, 10, 12} {
+			for _, level := range []int{-1, 1, 6, 9} {
+				for _, d := range []int{1<<bits - 300, 1 << bits, 1<<bits + 200, 3 << bits} {
+					if d < 0 {
+						continue
+					}
+					pdv := fmt.Sprintf("on:1:%d:0:%d", bits, level)
+					w.emit(role, pdv, 1, big, []string{fmt.Sprintf("msg:2:@r300.7+@r%d.8+@r300.7", d)})
+					w.emit(role, pdv, 1, big, []string{"msg:2:@r300.7", fmt.Sprintf("msg:2:@r%d.8+@r300.7", d)})
+					w.emit(role, fmt.Sprintf("on:0:%d:1:%d", bits, level), 1, big, []string{fmt.Sprintf("file:2:@r300.7+@r%d.8+@r300.7:last", d)})
+				}
+			}
+		}
+	}
 
 	// 1a. every small length through every API in one sequence per (role, compression setting, API)
 	small := []int{0, 1, 124, 125, 126, 127}
